@@ -138,6 +138,7 @@ pub fn spec_c10() -> PropSpec {
     pf.steps = [10, 10, 1, 0, 0, 0, 0, 0, 1];
     pf.max_steps = 40;
     pf.min_steps = 8;
+    pf.episode_pct = 10;
     PropSpec {
         id: "C10",
         profile: pf,
